@@ -62,10 +62,29 @@ def gen_c07(tier, rng):
     s += gen_family(rng, "a", "jdk", full, scale(tier, 30, 300), [2, 3, 4], [2, 3, 4], lambda r: "solo %d %d" % (scale(tier, 400, 3000), r.randint(1, 1 << 30)), prefill_max=4)
     s += gen_family(rng, "b", "jdk", full, scale(tier, 12, 100), [2, 3], [2, 3], "dfs 2 %d" % scale(tier, 3000, 40000), prefill_max=3)
     s += gen_family(rng, "c", "jdk", full, scale(tier, 10, 100), [3, 4], [3, 4, 5], lambda r: "rand %d %d" % (scale(tier, 300, 3000), r.randint(1, 1 << 30)), prefill_max=4)
+    # a goroutine suspended for good at every one of its access points: everybody else must still finish
+    s += gen_family(rng, "f", "jdk", ["o", "o", "p", "p", "k", "z"], scale(tier, 16, 150), [3], [2, 3, 4], lambda r: "freeze %d %d" % (scale(tier, 3, 12), r.randint(1, 1 << 30)), prefill_max=3)
     return s
 
+def gen_two_iters(tier, rng, count):
+    """two iterators walking and removing over the same elements while a third thread polls / offers"""
+    out = []
+    for i in range(count):
+        npre = rng.choice([3, 4, 5])
+        def walker():
+            th = ["i"]
+            for _ in range(rng.choice([3, 4, 5])):
+                th.append(rng.choice(["n", "n", "r"]))
+            return th
+        ths = [walker(), walker()]
+        if rng.random() < 0.5:
+            ths.append(rng.choice([["p"], ["o9"], ["p", "o9"]]))
+        m = "dfs 3 %d" % scale(tier, 6000, 80000) if len(ths) == 2 else "rand %d %d" % (scale(tier, 500, 5000), rng.randint(1, 1 << 30))
+        out.append(conc.Scn("w%d" % i, "jdk", list(range(1, npre + 1)), ths, m))
+    return out
+
 def gen_c13(tier, rng):
-    s = []
+    s = gen_two_iters(tier, rng, scale(tier, 14, 120))
     alpha = ["o", "p", "p", "o"]
     s += gen_family(rng, "a", "jdk", alpha, scale(tier, 24, 150), 2, [2, 3, 4], "dfs 2 %d" % scale(tier, 4000, 60000), prefill_max=3, iter_threads=1)
     s += gen_family(rng, "b", "jdk", alpha, scale(tier, 10, 80), 3, [2, 3], "dfs 2 %d" % scale(tier, 4000, 60000), prefill_max=3, iter_threads=2)
